@@ -845,6 +845,13 @@ func (m *Machine) Exec(i int, op Op) *Violation {
 		} else {
 			s.Skipped = true
 		}
+	case "setphone":
+		// the application (support desk, another device of the owner) replaces the registered number in storage
+		if ka := m.KB.acct(op.A % max(1, len(m.KB.Accts))); ka != nil && m.W.Store.Peek(ka.PID) != nil && m.W.Store.Peek(ka.PID).SMSPhone != "" {
+			m.W.Store.Mutate(ka.PID, func(u *harness.User) { u.SMSPhone = op.S })
+		} else {
+			s.Skipped = true
+		}
 	case "updpw":
 		if ka := m.KB.acct(op.A % max(1, len(m.KB.Accts))); ka != nil {
 			if u, err := m.W.Store.Load(context.Background(), ka.PID); err == nil {
